@@ -219,7 +219,14 @@ class POP(BaseModelSingleSet):
                 ["mode"],
                 ["mode"],
             ],
-            dask="allowed",
+            # The linear algebra is done by numpy: defer it as one task so that a dask-backed
+            # fit stays lazy
+            dask="parallelized",
+            output_dtypes=[complex] * 5,
+            dask_gufunc_kwargs={
+                "allow_rechunk": True,
+                "output_sizes": {"mode": X.sizes[feature_name]},
+            },
         )
 
         mode_coords = np.arange(1, P.mode.size + 1)
